@@ -41,7 +41,8 @@ def fresh(cfg):
     t0, tf = cfg["span"]
     prob = ec.problem(cfg["problem"], t0)
     y0 = np.array(prob.y0, dtype=dtype)
-    a = de.OdeSystem(prob.f, y0=y0, t=(dtype(t0), dtype(tf)), dt=dtype(cfg["dt0"]), rtol=dtype(cfg["tol"]), atol=dtype(cfg["tol"]), dense_output=bool(cfg["dense"]))
+    tf_cfg = (2 * t0 - tf) if cfg.get("against") else tf        # 'against': configured with the mirrored span, every integrate call names its target
+    a = de.OdeSystem(prob.f, y0=y0, t=(dtype(t0), dtype(tf_cfg)), dt=dtype(cfg["dt0"]), rtol=dtype(cfg["tol"]), atol=dtype(cfg["tol"]), dense_output=bool(cfg["dense"]))
     a.method = lc.by_name(cfg["method"])
     return a, prob, y0, dtype
 
@@ -75,7 +76,7 @@ def apply_op(a, cfg, prob, op, dtype):
             obs["evs"] = evs
             if op[0] == "ev":
                 obs["target"] = tf
-                a.integrate(events=evs, callback=b)
+                a.integrate(dtype(tf), events=evs, callback=b)
             else:
                 d = 1.0 if tf > t0 else -1.0
                 obs["target"] = d * np.inf
@@ -85,10 +86,10 @@ def apply_op(a, cfg, prob, op, dtype):
             tau = float(a.t[-1]) + 0.6 * (tf - float(a.t[-1]))
             evs = [ec.make_event(dict(kind="time", tau=tau, terminal=True, s=cfg["s"], dir=0), prob)]
             obs["evs"] = evs; obs["target"] = tf
-            a.integrate(events=evs, callback=b)
+            a.integrate(dtype(tf), events=evs, callback=b)
         elif op[0] == "int":
             obs["target"] = tf
-            a.integrate(callback=b)
+            a.integrate(dtype(tf), callback=b)
         elif op[0] == "intT":
             obs["target"] = t0 + op[1] * (tf - t0)
             a.integrate(dtype(obs["target"]), callback=b)
@@ -228,7 +229,7 @@ def configs(ctx):
                         for s in ((1.0, 1e3) if ctx.quick else (1e-3, 1.0, 1e3, 1e6)):
                             if ctx.quick and s != 1.0 and mi % 3:
                                 continue
-                            out.append(dict(problem=pname, span=list(span), dt0=dt0, method=m, dense=dense, dtype="float64", menu=menu, s=s, tol=1e-8))
+                            out.append(dict(problem=pname, span=list(span), dt0=dt0, method=m, dense=dense, dtype="float64", menu=menu, s=s, tol=1e-8, against=(len(out) % 3 == 1)))
     return out
 
 
